@@ -5,3 +5,5 @@ import DastardV.Props.C12
 import DastardV.Model.C14
 import DastardV.Props.C14
 import DastardV.Model.C18
+import DastardV.Props.C18
+import DastardV.Model.C09
